@@ -1367,3 +1367,10 @@ def s_arbitrary(m, args, kw, node):
     v = m.fresh(t, "arb." + str(name), getattr(m, "shape", None))
     m.abstract_returns.append(("arbitrary", str(name), v))
     return v
+
+
+@specfn("infinity")
+def s_infinity(m, args, kw, node):
+    from . import lib
+
+    return lib.inf_value(m)
